@@ -1,157 +1,21 @@
 import Nv.Proofs.C16World
 /-!
-C16 — the loops' steps commute (except in one race that scripts never reach), so running them to quiescence
-gives one result whatever the schedule. Proved configuration.
+C16 — the loops' steps commute (except in one race that scripts never reach, and the race for `exitOnce`, whose
+two outcomes meet again when both loops have finished), so running them to quiescence gives one result whatever
+the schedule. Proved configuration, exit callback returns.
 -/
 set_option linter.unusedSimpArgs false
+set_option linter.unusedVariables false
 namespace Nv.C16
 
 /-- no write can complete: the peer does not read, or the write fails -/
 def blocked (s : Sess) : Prop := s.peerDrain = false ∨ s.wfault = true ∨ s.peerClosed = true
 
 /-- no race between a write that can complete and a read loop about to close the connection: while the read loop
-    is on its way to `quit` and the connection is still open, the send loop cannot deliver anything -/
+    is on its way through `quit` and the connection is still open, the send loop cannot deliver anything -/
 def NoRace (s : Sess) : Prop :=
-  (∃ p, s.recvPc = .quitting p) → s.closes = 0 →
-    blocked s ∨ (s.sendPc = .idle ∧ s.q = []) ∨ s.sendPc = .quitting ∨ s.sendPc = .done
-
-theorem quitP_idem (s : Sess) : quitP (quitP s) = quitP s := by
-  unfold quitP; split <;> simp_all
-
-theorem diamond {s a b : Sess} (hS : SInv s) (hK : NoRace s) (ha : sendStepP s = some a) (hb : recvStepP s = some b) :
-    ∃ d, recvStepP a = some d ∧ sendStepP b = some d := by
-  unfold NoRace at hK
-  unfold sendStepP at ha
-  unfold recvStepP at hb
-  cases hr : s.recvPc with
-  | done => simp [hr] at hb
-  | reading =>
-    simp only [hr] at hb
-    split at hb
-    · rename_i hcond
-      cases hb
-      cases hs : s.sendPc with
-      | done => simp [hs] at ha
-      | idle =>
-        simp only [hs] at ha
-        split at ha
-        · split at ha
-          · cases ha; simp [sendStepP, recvStepP, hs, hr, *]
-          · cases ha
-        · split at ha <;> (cases ha; simp [sendStepP, recvStepP, hs, hr, *])
-      | writing x =>
-        simp only [hs] at ha
-        split at ha
-        · cases ha; simp [sendStepP, recvStepP, hs, hr, *]
-        · split at ha
-          · cases ha; simp [sendStepP, recvStepP, hs, hr, *]
-          · cases ha
-      | quitting =>
-        simp only [hs] at ha
-        cases ha
-        cases ho : s.onceDone <;> simp_all [sendStepP, recvStepP, quitP]
-    · cases hb
-  | quitting p =>
-    simp only [hr] at hb
-    cases hb
-    have hK' := hK ⟨p, hr⟩
-    obtain ⟨h1, h2, h3, h4, h5, h6, h7⟩ := hS
-    cases hs : s.sendPc with
-    | done => simp [hs] at ha
-    | idle =>
-      simp only [hs] at ha
-      split at ha
-      · split at ha
-        · cases ha
-          cases ho : s.onceDone <;> simp_all [sendStepP, recvStepP, quitP]
-        · cases ha
-      · rename_i x rest hq
-        cases ho : s.onceDone <;> split at ha <;> (cases ha; simp_all [sendStepP, recvStepP, quitP])
-    | writing x =>
-      simp only [hs] at ha
-      cases ho : s.onceDone
-      · have hc0 : s.closes = 0 := by simp_all
-        split at ha
-        · cases ha; simp_all [sendStepP, recvStepP, quitP]
-        · rename_i hn
-          exfalso
-          split at ha
-          · rcases hK' hc0 with hbl | ⟨h, _⟩ | h | h
-            · unfold blocked at hbl; rcases hbl with hbl | hbl | hbl <;> simp_all
-            · simp_all
-            · simp_all
-            · simp_all
-          · cases ha
-      · split at ha
-        · cases ha; simp_all [sendStepP, recvStepP, quitP]
-        · exfalso; simp_all
-    | quitting =>
-      simp only [hs] at ha
-      cases ha
-      cases ho : s.onceDone <;> simp_all [sendStepP, recvStepP, quitP]
-
-theorem blocked_quitP (s : Sess) : blocked (quitP s) ↔ blocked s := by
-  unfold blocked quitP; split <;> simp
-
-theorem norace_sendStepP {s a : Sess} (_hS : SInv s) (hK : NoRace s) (ha : sendStepP s = some a) : NoRace a := by
-  unfold NoRace at hK ⊢
-  unfold sendStepP at ha
-  intro ⟨p, hp⟩ hc
-  cases hs : s.sendPc with
-  | done => simp [hs] at ha
-  | idle =>
-    simp only [hs] at ha
-    split at ha
-    · split at ha
-      · cases ha; simp
-      · cases ha
-    · rename_i x rest hq
-      split at ha <;>
-      · cases ha
-        simp only at hp hc
-        rcases hK ⟨p, hp⟩ hc with h | ⟨_, h⟩ | h | h
-        · left; exact h
-        · simp_all
-        · simp_all
-        · simp_all
-  | writing x =>
-    simp only [hs] at ha
-    split at ha
-    · cases ha; simp
-    · split at ha
-      · rename_i hn hd
-        cases ha
-        simp only at hp hc
-        rcases hK ⟨p, hp⟩ hc with hbl | ⟨h, _⟩ | h | h
-        · left; exact hbl
-        · simp_all
-        · simp_all
-        · simp_all
-      · cases ha
-  | quitting =>
-    simp only [hs] at ha
-    cases ha; simp
-
-theorem norace_recvStepP {s b : Sess} (_hK : NoRace s) (hb : recvStepP s = some b) : NoRace b := by
-  unfold NoRace
-  unfold recvStepP at hb
-  intro ⟨p, hp⟩ hc
-  cases hr : s.recvPc with
-  | done => simp [hr] at hb
-  | reading =>
-    simp only [hr] at hb
-    split at hb
-    · rename_i hcond
-      cases hb
-      simp only at hp hc
-      -- the read loop left `reading` because the peer closed (the connection is still open here)
-      have hpc : s.peerClosed = true := by simp_all
-      left; right; right; exact hpc
-    · cases hb
-  | quitting q =>
-    simp only [hr] at hb
-    cases hb
-    simp at hp
+  (∃ p st, s.recvPc = .quitting p st) → s.closes = 0 →
+    blocked s ∨ (s.sendPc = .idle ∧ s.q = []) ∨ (∃ st, s.sendPc = .quitting st) ∨ s.sendPc = .done
 
 /-! ### runs of loop steps -/
 
@@ -161,6 +25,268 @@ inductive IRun : Sess → Sess → Prop
   | recv {s b t : Sess} : recvStepP s = some b → IRun b t → IRun s t
 
 def normalP (s : Sess) : Prop := sendStepP s = none ∧ recvStepP s = none
+
+theorem IRun.trans {s t u : Sess} (h1 : IRun s t) (h2 : IRun t u) : IRun s u := by
+  induction h1 with
+  | refl => exact h2
+  | send h _ ih => exact IRun.send h (ih h2)
+  | recv h _ ih => exact IRun.recv h (ih h2)
+
+/-- both loops arrive at `exitOnce.Do` together: whichever wins, the session ends in the same state -/
+theorem once_race {s : Sess} (p : Bool) (hs : s.sendPc = .quitting .enter) (hr : s.recvPc = .quitting p .enter)
+    (ht : s.onceTaken = false) (hd : s.onceDone = false) {a b : Sess}
+    (ha : sendStepP s = some a) (hb : recvStepP s = some b) : ∃ d, IRun a d ∧ IRun b d := by
+  simp [sendStepP, hs, ht, hd] at ha
+  simp [recvStepP, hr, ht, hd] at hb
+  subst ha; subst hb
+  refine ⟨{ s with onceTaken := true, onceDone := true, exits := s.exits + 1, decs := s.decs + 1, qClosed := true,
+                   closes := s.closes + 1, sendPc := .done, recvPc := .done }, ?_, ?_⟩
+  · refine IRun.send (a := _) (by simp [sendStepP]; rfl) ?_
+    refine IRun.send (a := _) (by simp [sendStepP]; rfl) ?_
+    refine IRun.send (a := _) (by simp [sendStepP]; rfl) ?_
+    refine IRun.recv (b := _) (by simp [recvStepP, hr]; rfl) ?_
+    exact IRun.refl _
+  · refine IRun.recv (b := _) (by simp [recvStepP]; rfl) ?_
+    refine IRun.recv (b := _) (by simp [recvStepP]; rfl) ?_
+    refine IRun.recv (b := _) (by simp [recvStepP]; rfl) ?_
+    refine IRun.send (a := _) (by simp [sendStepP, hs]; rfl) ?_
+    exact IRun.refl _
+
+theorem join1 {a b : Sess} (h : ∃ d, recvStepP a = some d ∧ sendStepP b = some d) : ∃ d, IRun a d ∧ IRun b d := by
+  obtain ⟨d, h1, h2⟩ := h
+  exact ⟨d, IRun.recv h1 (IRun.refl d), IRun.send h2 (IRun.refl d)⟩
+
+/-- diamond: two enabled loop steps can be completed to a common state -/
+theorem diamond {s a b : Sess} (hS : SInv s) (hK : NoRace s) (ha : sendStepP s = some a) (hb : recvStepP s = some b) :
+    ∃ d, IRun a d ∧ IRun b d := by
+  have hS' := hS
+  have ha0 := ha
+  have hb0 := hb
+  obtain ⟨h1, h2, h3, h4, h5, h6, h7, h8, h9⟩ := hS
+  unfold NoRace blocked at hK
+  cases hr : s.recvPc with
+  | done => simp [recvStepP, hr] at hb
+  | reading =>
+    -- the receive step only changes recvPc; no send step looks at it
+    have hb' := hb
+    simp only [recvStepP, hr] at hb
+    split at hb
+    · rename_i hcond
+      cases hb
+      cases hs : s.sendPc with
+      | done => simp [sendStepP, hs] at ha
+      | idle =>
+        simp only [sendStepP, hs] at ha
+        split at ha
+        · split at ha
+          · cases ha; apply join1; clear h7 h8 h9 hK hS'; simp_all [sendStepP, recvStepP]
+          · cases ha
+        · split at ha <;> (cases ha; apply join1; clear h7 h8 h9 hK hS'; simp_all [sendStepP, recvStepP])
+      | writing x =>
+        simp only [sendStepP, hs] at ha
+        split at ha
+        · cases ha; apply join1; clear h7 h8 h9 hK hS'; simp_all [sendStepP, recvStepP]
+        · split at ha
+          · cases ha; apply join1; clear h7 h8 h9 hK hS'; simp_all [sendStepP, recvStepP]
+          · cases ha
+      | quitting st =>
+        cases st <;> simp only [sendStepP, hs] at ha
+        · split at ha
+          · cases ha; apply join1; clear h7 h8 h9 hK hS'; simp_all [sendStepP, recvStepP]
+          · split at ha
+            · cases ha
+            · cases ha; apply join1; clear h7 h8 h9 hK hS'; simp_all [sendStepP, recvStepP]
+        · cases ha; apply join1; clear h7 h8 h9 hK hS'; simp_all [sendStepP, recvStepP]
+        · cases ha; apply join1; clear h7 h8 h9 hK hS'; simp_all [sendStepP, recvStepP]
+        · cases ha; apply join1; clear h7 h8 h9 hK hS'; simp_all [sendStepP, recvStepP]
+        · cases ha
+    · cases hb
+  | quitting p st =>
+    have hK' := hK ⟨p, st, hr⟩
+    cases st with
+    | stuck => simp [recvStepP, hr] at hb
+    | enter =>
+      simp only [recvStepP, hr] at hb
+      split at hb
+      · -- the once is finished: the receive loop just leaves
+        rename_i hd
+        cases hb
+        cases hs : s.sendPc with
+        | done => simp [sendStepP, hs] at ha
+        | idle =>
+          simp only [sendStepP, hs] at ha
+          split at ha
+          · split at ha
+            · cases ha; apply join1; clear h7 h8 h9 hK hS'; simp_all [sendStepP, recvStepP]
+            · cases ha
+          · split at ha <;> (cases ha; apply join1; clear h7 h8 h9 hK hS'; simp_all [sendStepP, recvStepP])
+        | writing x =>
+          simp only [sendStepP, hs] at ha
+          split at ha
+          · cases ha; apply join1; clear h7 h8 h9 hK hS'; simp_all [sendStepP, recvStepP]
+          · exfalso
+            have := (h6 hd).2.2.2.1
+            simp_all
+        | quitting st' =>
+          cases st' <;> simp only [sendStepP, hs] at ha
+          · simp only [hd, if_true] at ha
+            cases ha; apply join1; clear h7 h8 h9 hK hS'; simp_all [sendStepP, recvStepP]
+          all_goals (exfalso; have := (h8 _ hs (by simp)).2.1; simp [hd] at this)
+      · rename_i hd
+        split at hb
+        · cases hb
+        · -- the receive loop takes the once
+          rename_i ht
+          have ht' : s.onceTaken = false := by simpa using ht
+          have hd' : s.onceDone = false := by simpa using hd
+          obtain ⟨_, e0, d0, c0⟩ := h5 ht'
+          cases hs : s.sendPc with
+          | done => simp [sendStepP, hs] at ha
+          | idle =>
+            cases hb
+            simp only [sendStepP, hs] at ha
+            split at ha
+            · split at ha
+              · cases ha; apply join1; clear h7 h8 h9 hK hS'; simp_all [sendStepP, recvStepP]
+              · cases ha
+            · split at ha <;> (cases ha; apply join1; clear h7 h8 h9 hK hS'; simp_all [sendStepP, recvStepP])
+          | writing x =>
+            cases hb
+            simp only [sendStepP, hs] at ha
+            split at ha
+            · cases ha; apply join1; clear h7 h8 h9 hK hS'; simp_all [sendStepP, recvStepP]
+            · split at ha
+              · exfalso
+                rcases hK' c0 with hbl | ⟨h, _⟩ | ⟨st, h⟩ | h
+                · rcases hbl with hbl | hbl | hbl <;> simp_all
+                · simp_all
+                · simp_all
+                · simp_all
+              · cases ha
+          | quitting st' =>
+            cases st' with
+            | enter => exact once_race p hs hr ht' hd' ha0 hb0
+            | stuck => simp [sendStepP, hs] at ha
+            | _ => exfalso; have := (h8 _ hs (by simp)).1; simp [ht'] at this
+    | dec =>
+      simp only [recvStepP, hr] at hb
+      cases hb
+      obtain ⟨o1, o2, ⟨d0, c0⟩, o4⟩ := h9 p .dec hr (by simp)
+      cases hs : s.sendPc with
+      | done => simp [sendStepP, hs] at ha
+      | idle =>
+        simp only [sendStepP, hs] at ha
+        split at ha
+        · split at ha
+          · cases ha; apply join1; clear h7 h8 h9 hK hS'; simp_all [sendStepP, recvStepP]
+          · cases ha
+        · split at ha <;> (cases ha; apply join1; clear h7 h8 h9 hK hS'; simp_all [sendStepP, recvStepP])
+      | writing x =>
+        simp only [sendStepP, hs] at ha
+        split at ha
+        · cases ha; apply join1; clear h7 h8 h9 hK hS'; simp_all [sendStepP, recvStepP]
+        · split at ha
+          · cases ha; apply join1; clear h7 h8 h9 hK hS'; simp_all [sendStepP, recvStepP]
+          · cases ha
+      | quitting st' =>
+        have := o4 st' hs; subst this
+        simp [sendStepP, hs, o1, o2] at ha
+    | closeQ =>
+      simp only [recvStepP, hr] at hb
+      cases hb
+      obtain ⟨o1, o2, ⟨d0, c0⟩, o4⟩ := h9 p .closeQ hr (by simp)
+      cases hs : s.sendPc with
+      | done => simp [sendStepP, hs] at ha
+      | idle =>
+        simp only [sendStepP, hs] at ha
+        split at ha
+        · split at ha
+          · cases ha; apply join1; clear h7 h8 h9 hK hS'; simp_all [sendStepP, recvStepP]
+          · cases ha
+        · split at ha <;> (cases ha; apply join1; clear h7 h8 h9 hK hS'; simp_all [sendStepP, recvStepP])
+      | writing x =>
+        simp only [sendStepP, hs] at ha
+        split at ha
+        · cases ha; apply join1; clear h7 h8 h9 hK hS'; simp_all [sendStepP, recvStepP]
+        · split at ha
+          · cases ha; apply join1; clear h7 h8 h9 hK hS'; simp_all [sendStepP, recvStepP]
+          · cases ha
+      | quitting st' =>
+        have := o4 st' hs; subst this
+        simp [sendStepP, hs, o1, o2] at ha
+    | closeConn =>
+      simp only [recvStepP, hr] at hb
+      cases hb
+      obtain ⟨o1, o2, ⟨d0, c0, qc⟩, o4⟩ := h9 p .closeConn hr (by simp)
+      cases hs : s.sendPc with
+      | done => simp [sendStepP, hs] at ha
+      | idle =>
+        simp only [sendStepP, hs] at ha
+        split at ha
+        · split at ha
+          · cases ha; apply join1; clear h7 h8 h9 hK hS'; simp_all [sendStepP, recvStepP]
+          · first | (cases ha; done) | (exfalso; simp_all)
+        · split at ha <;> (cases ha; apply join1; clear h7 h8 h9 hK hS'; simp_all [sendStepP, recvStepP])
+      | writing x =>
+        simp only [sendStepP, hs] at ha
+        split at ha
+        · cases ha; apply join1; clear h7 h8 h9 hK hS'; simp_all [sendStepP, recvStepP]
+        · split at ha
+          · exfalso
+            rcases hK' c0 with hbl | ⟨h, _⟩ | ⟨st, h⟩ | h
+            · rcases hbl with hbl | hbl | hbl <;> simp_all
+            · simp_all
+            · simp_all
+            · simp_all
+          · cases ha
+      | quitting st' =>
+        have := o4 st' hs; subst this
+        simp [sendStepP, hs, o1, o2] at ha
+
+theorem norace_sendStepP {s a : Sess} (hK : NoRace s) (ha : sendStepP s = some a) : NoRace a := by
+  have key : a.recvPc = s.recvPc ∧ a.peerDrain = s.peerDrain ∧ a.wfault = s.wfault ∧ a.peerClosed = s.peerClosed ∧
+      (a.closes = 0 → s.closes = 0) ∧
+      ((s.sendPc = .idle ∧ s.q = []) ∨ (∃ st, s.sendPc = .quitting st) ∨ s.sendPc = .done →
+        (∃ st, a.sendPc = .quitting st) ∨ a.sendPc = .done) ∧
+      (blocked s → True) := by
+    unfold sendStepP at ha
+    repeat' split at ha
+    all_goals first | (cases ha; simp_all; done) | cases ha
+  obtain ⟨k1, k2, k3, k4, k5, k6, _⟩ := key
+  unfold NoRace blocked at hK ⊢
+  intro hq hc
+  rw [k1] at hq
+  rcases hK hq (k5 hc) with h | h
+  · left; rw [k2, k3, k4]; exact h
+  · right; right; exact k6 h
+
+theorem norace_recvStepP {s b : Sess} (hK : NoRace s) (hb : recvStepP s = some b) : NoRace b := by
+  unfold NoRace blocked at hK ⊢
+  unfold recvStepP at hb
+  intro hq hc
+  cases hr : s.recvPc with
+  | done => simp [hr] at hb
+  | reading =>
+    simp only [hr] at hb
+    split at hb
+    · rename_i hcond
+      cases hb
+      simp only at hc
+      have hpc : s.peerClosed = true := by simp_all
+      left; right; right; exact hpc
+    · cases hb
+  | quitting p st =>
+    have hK' := hK ⟨p, st, hr⟩
+    cases st <;> simp only [hr] at hb
+    · split at hb
+      · cases hb; simp at hq
+      · split at hb
+        · cases hb
+        · cases hb; exact hK' hc
+    · cases hb; exact hK' hc
+    · cases hb; exact hK' hc
+    · cases hb; simp at hq
+    · cases hb
 
 theorem exists_normal : ∀ (n : Nat) (s : Sess), measure s ≤ n → ∃ t, IRun s t ∧ normalP t
   | 0, s, h => by
@@ -183,6 +309,18 @@ theorem exists_normal : ∀ (n : Nat) (s : Sess), measure s ≤ n → ∃ t, IRu
         obtain ⟨t, r, ht⟩ := exists_normal n b (by omega)
         exact ⟨t, IRun.recv h2 r, ht⟩
       | none => exact ⟨s, IRun.refl s, h1, h2⟩
+
+theorem irun_measure {s t : Sess} (r : IRun s t) : measure t ≤ measure s := by
+  induction r with
+  | refl => exact Nat.le_refl _
+  | send h _ ih => have := measure_sendStepP h; omega
+  | recv h _ ih => have := measure_recvStepP h; omega
+
+theorem irun_inv {s t : Sess} (r : IRun s t) (hS : SInv s) (hK : NoRace s) : SInv t ∧ NoRace t := by
+  induction r with
+  | refl => exact ⟨hS, hK⟩
+  | send h _ ih => exact ih (sinv_sendStepP hS h) (norace_sendStepP hK h)
+  | recv h _ ih => exact ih (sinv_recvStepP hS h) (norace_recvStepP hK h)
 
 /-- whatever the schedule of the two loops, the state at quiescence is the same -/
 theorem normal_unique : ∀ (n : Nat) (s t1 t2 : Sess), measure s ≤ n → SInv s → NoRace s →
@@ -209,14 +347,14 @@ theorem normal_unique : ∀ (n : Nat) (s t1 t2 : Sess), measure s ≤ n → SInv
       | refl => rw [n2.1] at ha; cases ha
       | send ha' ra' =>
         rw [ha] at ha'; cases ha'
-        exact normal_unique n a t1 t2 (by omega) (sinv_sendStepP hS ha) (norace_sendStepP hS hK ha) ra n1 ra' n2
+        exact normal_unique n a t1 t2 (by omega) (sinv_sendStepP hS ha) (norace_sendStepP hK ha) ra n1 ra' n2
       | recv hb rb =>
         rename_i b
         have hmb := measure_recvStepP hb
         obtain ⟨d, hd1, hd2⟩ := diamond hS hK ha hb
         obtain ⟨nd, rd, nnd⟩ := exists_normal (measure d) d (Nat.le_refl _)
-        have e1 := normal_unique n a t1 nd (by omega) (sinv_sendStepP hS ha) (norace_sendStepP hS hK ha) ra n1 (IRun.recv hd1 rd) nnd
-        have e2 := normal_unique n b t2 nd (by omega) (sinv_recvStepP hS hb) (norace_recvStepP hK hb) rb n2 (IRun.send hd2 rd) nnd
+        have e1 := normal_unique n a t1 nd (by omega) (sinv_sendStepP hS ha) (norace_sendStepP hK ha) ra n1 (hd1.trans rd) nnd
+        have e2 := normal_unique n b t2 nd (by omega) (sinv_recvStepP hS hb) (norace_recvStepP hK hb) rb n2 (hd2.trans rd) nnd
         rw [e1, e2]
     | recv hb rb =>
       rename_i b
@@ -231,14 +369,14 @@ theorem normal_unique : ∀ (n : Nat) (s t1 t2 : Sess), measure s ≤ n → SInv
         have hma := measure_sendStepP ha
         obtain ⟨d, hd1, hd2⟩ := diamond hS hK ha hb
         obtain ⟨nd, rd, nnd⟩ := exists_normal (measure d) d (Nat.le_refl _)
-        have e1 := normal_unique n b t1 nd (by omega) (sinv_recvStepP hS hb) (norace_recvStepP hK hb) rb n1 (IRun.send hd2 rd) nnd
-        have e2 := normal_unique n a t2 nd (by omega) (sinv_sendStepP hS ha) (norace_sendStepP hS hK ha) ra n2 (IRun.recv hd1 rd) nnd
+        have e1 := normal_unique n b t1 nd (by omega) (sinv_recvStepP hS hb) (norace_recvStepP hK hb) rb n1 (hd2.trans rd) nnd
+        have e2 := normal_unique n a t2 nd (by omega) (sinv_sendStepP hS ha) (norace_sendStepP hK ha) ra n2 (hd1.trans rd) nnd
         rw [e1, e2]
 
 /-- a quiescent state followed by one environment event has no race -/
 theorem norace_after_event {s : Sess} (h : ended s ∨ waiting s) (e : Env) : NoRace (envStep s e) := by
   unfold NoRace blocked
-  intro ⟨p, hp⟩ hc
+  intro ⟨p, st, hp⟩ hc
   rcases h with he | hw
   · exfalso
     unfold ended at he
@@ -249,16 +387,20 @@ theorem norace_after_event {s : Sess} (h : ended s ∨ waiting s) (e : Env) : No
     · cases e <;> simp only [envStep] at hp hc ⊢ <;> (try split) <;> simp_all
     · cases e <;> simp only [envStep] at hp hc ⊢ <;> (try split) <;> simp_all
 
-theorem irun_settleN {c : Cfg} (hc : Proved c) : ∀ (n : Nat) (s : Sess), IRun s (settleN c n s)
-  | 0, s => IRun.refl s
-  | n + 1, s => by
+theorem irun_settleN {c : Cfg} (hc : Proved c) : ∀ (n : Nat) (s : Sess), SInv s → IRun s (settleN c n s)
+  | 0, s, _ => IRun.refl s
+  | n + 1, s, hS => by
     simp only [settleN]
     cases h1 : sendStep c s with
-    | some a => rw [sendStep_proved hc] at h1; exact IRun.send h1 (irun_settleN hc n a)
+    | some a =>
+      rw [sendStep_proved hc s hS.exit_ret] at h1
+      exact IRun.send h1 (irun_settleN hc n a (sinv_sendStepP hS h1))
     | none =>
       simp only
       cases h2 : recvStep c s with
-      | some b => rw [recvStep_proved hc] at h2; exact IRun.recv h2 (irun_settleN hc n b)
+      | some b =>
+        rw [recvStep_proved hc s hS.exit_ret hS.not_crashed] at h2
+        exact IRun.recv h2 (irun_settleN hc n b (sinv_recvStepP hS h2))
       | none => exact IRun.refl s
 
 end Nv.C16
